@@ -2,10 +2,12 @@ package main
 
 import (
 	"go/types"
+
 	"crypto/sha1"
 	"encoding/json"
 	"flag"
 	"fmt"
+	"golang.org/x/tools/go/ssa"
 	"os"
 	"os/exec"
 	"path/filepath"
@@ -333,6 +335,7 @@ func cmdCheck(args []string) {
 			}
 		}
 	}
+	results = append(results, writeOnlyResults(P, db, *prop)...)
 	sort.Slice(results, func(i, j int) bool { return results[i].Fn+results[i].Shape < results[j].Fn+results[j].Shape })
 
 	// known findings
@@ -560,27 +563,27 @@ func cmdCheck(args []string) {
 			"violations":  violations,
 			"assumptions": assumptions,
 			"coverage": map[string]interface{}{
-				"obligations":              len(all) - len(knownMatched),
+				"obligations":                          len(all) - len(knownMatched),
 				"obligations_including_known_findings": len(all),
-				"discharged":               discharged,
-				"checker_cmd":              "/verif/check " + *prop + " --tier " + *tier,
-				"trusted_base":             append([]string{"z3 5.1.0 (z3-new), z3 4.8.12, cvc5 1.0.3", "golang.org/x/tools v0.29.0 go/ssa naive form", "govc VC generator (/verif/govc)"}, ext...),
-				"samples":                  samples,
-				"functions_under_contract": fns,
-				"functions_inlined":        inl,
-				"callee_contracts_used":    ctr,
-				"per_class_counts":         perClass,
-				"solver_time_s":            timeBy,
+				"discharged":                           discharged,
+				"checker_cmd":                          "/verif/check " + *prop + " --tier " + *tier,
+				"trusted_base":                         append([]string{"z3 5.1.0 (z3-new), z3 4.8.12, cvc5 1.0.3", "golang.org/x/tools v0.29.0 go/ssa naive form", "govc VC generator (/verif/govc)"}, ext...),
+				"samples":                              samples,
+				"functions_under_contract":             fns,
+				"functions_inlined":                    inl,
+				"callee_contracts_used":                ctr,
+				"per_class_counts":                     perClass,
+				"solver_time_s":                        timeBy,
 				"path_instances_discharged_by_backend": byBackend,
 				"obligations_discharged_by_second_run": retried,
-				"second_solver_crosscheck": map[string]interface{}{"tier": "thorough only", "solver": "z3 4.8.12 on the stand-alone script of instances proved by z3 5.1.0 (first 400 per function run)", "agree": cross[0], "disagree": cross[1], "undecided_or_timeout": cross[2]},
-				"solver_checks":            checks,
-				"paths":                    paths,
-				"vacuity":                  vac,
-				"known_findings_matched":   knownMatched,
-				"not_discharged":           undecided,
-				"baseline_missing":         missing,
-				"errors":                   errors,
+				"second_solver_crosscheck":             map[string]interface{}{"tier": "thorough only", "solver": "z3 4.8.12 on the stand-alone script of instances proved by z3 5.1.0 (first 400 per function run)", "agree": cross[0], "disagree": cross[1], "undecided_or_timeout": cross[2]},
+				"solver_checks":                        checks,
+				"paths":                                paths,
+				"vacuity":                              vac,
+				"known_findings_matched":               knownMatched,
+				"not_discharged":                       undecided,
+				"baseline_missing":                     missing,
+				"errors":                               errors,
 			},
 		}
 		os.MkdirAll(filepath.Join(*verif, "evidence"), 0o755)
@@ -657,6 +660,103 @@ func verifyFuncTypeImpls(P *Program, db *ContractDB, key string, timeout int) []
 	}
 	if len(out) == 0 {
 		out = append(out, &FnResult{Fn: "functype " + key, Errors: []string{"no function literal of this type found"}})
+	}
+	return out
+}
+
+// writeOnlyResults decides the `writeonly` declarations tagged with prop: a package-wide frame
+// condition ("field f of T is assigned only in these functions"). In safe Go a field is written
+// only by a store through its field address or by a store of a whole T; every function of the two
+// own packages (anonymous functions included) is scanned for such stores, and for field addresses
+// that are used by anything but a load or a store (an escaping address could be written elsewhere).
+func writeOnlyResults(P *Program, db *ContractDB, prop string) []*FnResult {
+	var out []*FnResult
+	for _, wo := range db.writeonly {
+		if !hasTag(wo.Tags, prop) {
+			continue
+		}
+		res := &FnResult{Fn: "(package frame) " + wo.Field, Vacuity: "n/a (syntactic frame rule)"}
+		o := &Oblig{Name: "(package)/FRAME.field:writeonly " + wo.Text, Class: "FRAME.field", Fn: "(package)", Tags: wo.Tags, Inst: 1, By: map[string]int{}}
+		res.Obligs = []*Oblig{o}
+		out = append(out, res)
+		parts := strings.Split(wo.Field, ".")
+		var T types.Type
+		if len(parts) == 3 {
+			for _, tp := range P.tpkgs {
+				if tp.Name() == parts[0] {
+					if obj := tp.Scope().Lookup(parts[1]); obj != nil {
+						T = obj.Type()
+					}
+				}
+			}
+		}
+		idx := -1
+		if T != nil {
+			idx = fieldIndex(T, parts[2])
+		}
+		if idx < 0 {
+			res.Errors = append(res.Errors, "writeonly: unknown field "+wo.Field)
+			continue
+		}
+		for fn := range wo.By {
+			if P.funcs[fn] == nil {
+				res.Errors = append(res.Errors, "writeonly "+wo.Field+": no function "+fn)
+			}
+		}
+		names := make([]string, 0, len(P.funcs))
+		for n := range P.funcs {
+			names = append(names, n)
+		}
+		sort.Strings(names)
+		var bad []string
+		scanned, stores := 0, 0
+		for _, n := range names {
+			fn := P.funcs[n]
+			scanned++
+			for _, b := range fn.Blocks {
+				for _, ins := range b.Instrs {
+					why := ""
+					switch x := ins.(type) {
+					case *ssa.FieldAddr:
+						pt, ok := under(x.X.Type()).(*types.Pointer)
+						if !ok || !types.Identical(pt.Elem(), T) || x.Field != idx {
+							continue
+						}
+						for _, r := range *x.Referrers() {
+							switch u := r.(type) {
+							case *ssa.Store:
+								if u.Addr == x {
+									stores++
+									why = "assigns " + wo.Field
+								} else {
+									why = "stores the address of " + wo.Field
+								}
+							case *ssa.UnOp, *ssa.DebugRef:
+							default:
+								why = "takes the address of " + wo.Field
+							}
+						}
+					case *ssa.Store:
+						if pt, ok := under(x.Addr.Type()).(*types.Pointer); ok && types.Identical(pt.Elem(), T) {
+							stores++
+							why = "assigns a whole " + parts[0] + "." + parts[1]
+						}
+					}
+					if why != "" && !wo.By[n] {
+						bad = append(bad, n+": "+why+" | "+P.srcLine(ins.Pos()))
+						if o.FirstPos == "" {
+							o.FirstPos = P.fset.Position(ins.Pos()).String()
+						}
+					}
+				}
+			}
+		}
+		o.Detail = fmt.Sprintf("scanned %d functions of the own packages, %d stores to the field; offending: %d\n%s", scanned, stores, len(bad), strings.Join(bad, "\n"))
+		if len(bad) > 0 {
+			o.Failed = 1
+		} else {
+			o.By["syntactic-frame-rule"] = 1
+		}
 	}
 	return out
 }
